@@ -97,16 +97,21 @@ def r1(ctx):
 
 def r2(ctx):
     prog = ctx.prog
-    bd = prog.body("master::association::TaskStates::on_restart_iin")
+    bd_c = prog.find_bodies("master::association::TaskStates::on_restart_iin")
+    # (the three demands may also sit directly in Association::on_restart_iin_observed, the helper's only caller)
+    bd = bd_c[0] if len(bd_c) == 1 else prog.body("master::association::Association::on_restart_iin_observed")
     sym = ctx.sym(bd)
     demanded = set()
     for c in call_sites(bd, r"AutoTaskState::demand$"):
         e = sym.call_expr(c.term)
         demanded |= {s[2] for s in expr_walk(e[2][0]) if s[0] == "field"}
     ctx.check(demanded == {"clear_restart_iin", "integrity_scan", "enabled_unsolicited"}, "restart:demands", "a restart demands %s" % sorted(demanded), bd.where(line=bd.line), bad_detail="on_restart_iin demands %s, expected clear_restart_iin, integrity_scan, enabled_unsolicited" % sorted(demanded))
-    ctx.check(not ctx.gi(bd).by_switch, "restart:unconditional", "all three are demanded unconditionally", bd.where(line=bd.line))
+    ds_ = call_sites(bd, r"AutoTaskState::demand$")
+    ctx.check(len({repr(ctx.guards_at(bd, c.idx)) for c in ds_}) <= 1, "restart:unconditional", "all three are demanded under one and the same condition", bd.where(line=bd.line))
     ob = prog.body("master::association::Association::on_restart_iin_observed")
     cs = call_sites(ob, r"TaskStates::on_restart_iin$")
+    if not cs and bd is ob:
+        cs = call_sites(ob, r"AutoTaskState::demand$")[:1]
     ws = [(b, st) for b, si, st in field_writes(ob, "startup_integrity_done")]
     ctx.check(len(cs) == 1 and len(ws) == 1 and ws[0][1].rv["k"] == "use" and ws[0][1].rv["a"].value() == 0, "restart:closes-gate", "a restart also clears startup_integrity_done", ob.where(line=ob.line), bad_detail="on_restart_iin_observed does not clear startup_integrity_done: unsolicited data is accepted before the repeated integrity poll")
     if cs and ws:
@@ -225,8 +230,12 @@ def r5(ctx):
     prog = ctx.prog
     bd = prog.body("app::retry::ExponentialBackOff::on_failure")
     sym = ctx.sym(bd)
-    for b, si, st, e in ret_sites(bd, sym):
-        gs = ctx.guards_at(bd, b.idx)
+    arms = []
+    for b0, si0, st0, e0 in ret_sites(bd, sym):
+        arms.extend((gs_, e_, bd.blocks[blk_]) for gs_, e_, blk_ in value_arms(ctx, bd, sym, e0, b0.idx))
+    for gs, e, b in arms:
+        # a local `max_delay` bound to self.strategy.max_delay is the same thing
+        e = resolve_defs(bd, sym, e, depth=1)[0] if mentions(e, lambda x: x[0] == "var") and len(resolve_defs(bd, sym, e, depth=1)) == 1 else e
         first = any(g.kind == "is" and g.name == "None" and mentions_field(g.a, "last") for g in gs)
         if first:
             ctx.check(e == ("field", ("field", ("param", "self"), "strategy"), "min_delay"), "backoff:first=min_delay", "first delay = strategy.min_delay (%s)" % expr_str(e), bd.where(b.idx))
@@ -240,11 +249,14 @@ def r5(ctx):
                 or any(g.kind == "rel" and g.op in ("Le", "Lt") and mentions_field(g.b, "max_delay") and mentions_call(g.a, r"mul$") for g in gs)
             ctx.check(clamp_last, "backoff:clamp-after-double", "the limit max_delay is applied to the doubled delay", bd.where(b.idx), bad_detail="the delay returned is `%s`: max_delay is not applied to the doubled value, so a retry delay can exceed the configured maximum" % expr_str(e)[:140])
     ws = field_writes(bd, "last")
-    ctx.check(len(ws) == 2, "backoff:stores-last", "both arms store the delay in `last`", bd.where(line=bd.line))
+    rets_ = return_blocks(bd)
+    stored = bool(ws) and all(must_pass(bd, 0, r_, {w[0].idx for w in ws}) for r_ in rets_)
+    ctx.check(stored, "backoff:stores-last", "every path stores the delay in `last` (%d site(s))" % len(ws), bd.where(line=bd.line))
     fb = prog.body("master::association::AutoTaskState::failure")
     fs = ctx.sym(fb)
     ons = call_sites(fb, r"ExponentialBackOff::on_failure$")
-    ctx.check(len(ons) == 2, "failure:both-arms", "both arms of AutoTaskState::failure go through on_failure", fb.where(line=fb.line))
+    frets = return_blocks(fb)
+    ctx.check(bool(ons) and all(must_pass(fb, 0, r_, {c.idx for c in ons}) for r_ in frets), "failure:both-arms", "every path of AutoTaskState::failure goes through on_failure (%d site(s))" % len(ons), fb.where(line=fb.line))
     n = 0
     for b, si, st in agg_sites(fb, r"association::AutoTaskState$", "Failed"):
         e = fs.rvalue_expr(st.rv)
